@@ -124,7 +124,14 @@ def check_step(ctx, w, ev, hist, tag):
     W = w.watch() if w.registered else set()
     w.log.calls.clear()
     ctx.tr()
-    subject, equal = G.apply(w.pool, ev)
+    try:
+        subject, equal = G.apply(w.pool, ev)
+    except Exception as exc:
+        ctx.violation("C08:mutation-raises:%s:%s%s" % (w.ename, ev[0],
+                                                       w.cyc()),
+                      "the mutation itself raised %r" % (exc,),
+                      expr=w.ename, history=hist, tag=tag)
+        return False
     w.had_cycle = w.had_cycle or G.has_cycle(w.pool)
     calls = list(w.log.calls)
     good = True
